@@ -459,7 +459,7 @@ CLASSES = {
     "stage0-vm-execution-panics":
         lambda e: e["kind"] == "panic" and e["stage"] in EMIT and in_file(e, VMRS)
         and (re.match(r"external function \S+ cannot be found", e["msg"]) is not None
-             or (e["msg"].startswith("range end index") and (e["parse_errors"] or "stage" in toks_of(e["text"])))),
+             or (e["msg"].startswith("range end index") and (e["parse_errors"] or has_staging_token(e["text"])))),
     # F55: an external / builtin function used as a first-class value (VM backend)
     "extern-function-as-value":
         lambda e: e["kind"] == "panic" and e["stage"] == "emit_bytecode" and in_file(e, BCGEN)
@@ -487,7 +487,9 @@ CLASSES["letrec-of-non-function"] = (
     #      no lambda the index names no function
     lambda e: e["kind"] == "panic" and e["stage"] in EMIT and "letrec" in toks_of(e["text"])
     and ((in_file(e, MIRGEN) and re.match(r"index out of bounds: the len is \d+ but the index is \d+", e["msg"]) is not None)
-         or (in_file(e, BCGEN) and re.match(r"value function \d+ not found", e["msg"]) is not None)))
+         or (in_file(e, BCGEN) and re.match(r"value function \d+ not found", e["msg"]) is not None)
+         or (in_file(e, VMRS) and has_staging_token(e["text"])
+             and re.match(r"index out of bounds: the len is \d+ but the index is \d+", e["msg"]) is not None)))
 CLASSES["compile-continues-after-parse-errors"] = (
     # F57: Context::emit_mir hands the recovered AST (with Expr::Error placeholders) to the whole compiler and looks at the parse
     #      errors only afterwards.  Only for texts WITH parse errors, only panics of the compile entry points that the type check
